@@ -52,6 +52,7 @@ var c03Args = map[string]string{
 	"pi":                   `<x><?proc instr?></x>`,
 	"whitespace-only":      `<w>  </w>`,
 	"mixed":                `<m>text<b></b>tail</m>`,
+	"prefixed-empty":       `<oc:c xmlns:oc="urn:x:oc"><oc:enabled></oc:enabled><oc:name>x</oc:name><oc:also></oc:also></oc:c>`,
 	"percent":              `<description>100% reserved, a%2Fb if%20doc %d %s %v %%</description>`,
 }
 
@@ -148,6 +149,43 @@ func c03Session(s *c03Scn, enc *json.Encoder) verdict {
 
 	if !s.Header {
 		extra = append(extra, options.WithNetconfExcludeHeader())
+	}
+
+	if s.Prev == "mismatch" {
+		// the user requires a version the peer does not offer: Open must refuse; a session that comes up all the same frames
+		// its requests in a way the two hellos never agreed on
+		other := "1.0"
+		if s.Version == "1.0" {
+			other = "1.1"
+		}
+
+		ms, merr := newNcSession(ncConfig{adv10: other == "1.0", adv11: other == "1.1", preferred: s.Version, seg: faultSegs["rand"], seed: int64(s.ID), timeout: 2 * time.Second, extra: extra, reply: ncReplyOK})
+		if merr != nil {
+			v.OK, v.Sig, v.Detail = false, "TOOL", merr.Error()
+
+			return v
+		}
+
+		var oerr error
+
+		fin, pan := withWatchdog(8*time.Second, func() {
+			if oerr = ms.d.Open(); oerr == nil {
+				_, _ = ms.d.Get("")
+				_ = ms.d.Close()
+			}
+		})
+
+		ms.pipe.Lock()
+		ch, nreq := ms.srv.ClientHello, len(ms.srv.Requests)
+		ms.pipe.Unlock()
+
+		if !fin || pan != nil {
+			fail(&v, "C03:"+s.Version+":version-mismatch:hang-or-panic", "user requires %s, peer offers only %s: returned=%v panic=%v", s.Version, other, fin, pan)
+		} else if oerr == nil {
+			fail(&v, "C03:"+s.Version+":framing-not-negotiated", "user requires %s, the peer offers only %s: Open succeeded, the client's hello is %q and %d request(s) went out in a framing the peer never offered", s.Version, other, ch, nreq)
+		}
+
+		return v
 	}
 
 	cfg := ncConfig{adv10: true, adv11: true, preferred: s.Version, seg: faultSegs["rand"], seed: int64(s.ID), timeout: 3 * time.Second, extra: extra, reply: ncReplyOK}
